@@ -44,6 +44,8 @@ RULES = {
     'CO-scission': '[C:1][O:2]>>[C:1].[O:2]',
     'C=C-to-C-C': '[C:1]=[C:2]>>[C:1][C:2]',
     'C-C-to-C=C': '[C:1][C:2]>>[C:1]=[C:2]',      # most of its products are over-valent and must be filtered one by one
+    # two product fragments, the first of which is over-valent on a saturated carbon
+    'beta-CCO': '[C:1][C:2][O:3]>>[C:1]=[C:2].[O:3]',
     'ring:CH-scission': RING_CH, 'ring:CC-scission': RING_CC, 'ring:OH-scission': RING_OH,
     'ring:C=C-decrease': RING_DB, 'ring:C-C-decrease': RING_CCDEC,
 }
@@ -205,6 +207,9 @@ def run(ctx):
     combos.append((['C[CH][CH2]'], ['C-C-to-C=C']))
     combos.append((['[CH2][CH]C', 'CC'], ['C-C-to-C=C', 'CC-scission']))
     combos.append((['[CH2]C[CH2]'], ['C-C-to-C=C', 'C=C-to-C-C']))
+    # an over-valent fragment written before a valid one that no other route makes
+    combos.append((['CCO'], ['beta-CCO']))
+    combos.append((['[CH2]CO', 'CCO'], ['beta-CCO']))
     for _ in range(60 if thorough else 10):
         seeds = rng_.sample(SEEDS[:8], rng_.choice([1, 1, 2]))
         rules = rng_.sample(names, rng_.choice([1, 2, 3]))
